@@ -227,6 +227,22 @@ def r2b_values_stored_as_given(ctx, rid="C16.R2b"):
                       "(e.g. the elements of a list re-cast to the type of its first element: [1, -0.6] -> [1, 0])", construct="values rewritten")
     commit = [ln for ln in L if ln == "$0._individual_parameters[$1] = $2"]
     ctx.anchor(bool(commit), rid, f, f.node, "the (validated) dictionary itself is what is stored", "commit of the individual's values", construct="values committed")
+    # ... and it is the container's own dictionary: the re-building above (a new dict) runs on every path to the commit, so that the caller's
+    # dictionary - which a caller may well re-use for the next individual - is never the object stored
+    from ..cfg import CFG
+    cfg = CFG(f.node)
+    p_ = [a.arg for a in f.node.args.args]
+    if len(p_) >= 3:
+        vals = p_[2]
+        fresh = [n for n, st in cfg.stmt.items() if isinstance(st, ast.Assign) and len(st.targets) == 1 and U(st.targets[0]) == vals
+                 and (isinstance(st.value, (ast.DictComp, ast.Dict)) or (isinstance(st.value, ast.Call) and (U(st.value.func) in ("dict", "copy.copy", "copy.deepcopy") or (isinstance(st.value.func, ast.Attribute) and st.value.func.attr == "copy"))))]
+        stores_ = [n for n, st in cfg.stmt.items() if isinstance(st, ast.Assign) and isinstance(st.targets[0], ast.Subscript) and U(st.targets[0].value) == "self._individual_parameters" and U(st.value) == vals]
+        if stores_:
+            okc = bool(fresh) and all(cfg.all_paths_pass(cfg.entry, fresh, end=s_) for s_ in stores_)
+            gs = [("" if lab else "not ") + U(cfg.stmt[h].test)[:60] for n in fresh for h, lab in cfg.if_guards(n) if any(x is cfg.stmt[n] for x in ast.walk(cfg.stmt[h]))]
+            ctx.check(okc, rid, f, cfg.stmt[stores_[0]], "what is stored is a dictionary built by the container on every path",
+                      "the caller's own dictionary is stored" + (f" unless `{gs[0]}`" if gs else "") + ": a caller that fills one working dictionary per individual ends with every individual "
+                      "sharing the last values written", construct="own copy stored")
 
 
 def r3_codec(ctx):
